@@ -32,7 +32,7 @@ func runC01(w *World, r *Report) {
 	r.Rule("C01/DEPLOYED", "in the function that marks the new record deployed, the record is the one created, has status deployed at every success exit and never at an error exit; the operation persists it afterwards", 9)
 	r.Rule("C01/SUPERSEDE", "the store of StatusDeployed is preceded by superseding (and recording) the previously deployed revision(s)", 3)
 	r.Rule("C01/CURRENT-SOURCE", "the revision an upgrade treats as currently deployed (and later supersedes) is Storage.Deployed's result, or Storage.Last's result only on edges where its status is deployed or Storage.Deployed reported ErrNoDeployedReleases", 2)
-	r.Rule("C01/PRUNE", "removeLeastRecent only selects revisions on edges where there is no deployed revision or the revision differs from it, iterates oldest-first, and Create calls it with MaxHistory-1", 4)
+	r.Rule("C01/PRUNE", "removeLeastRecent only selects revisions on edges where there is no deployed revision or the revision differs from it, iterates oldest-first, and Create calls it with MaxHistory-1", 3)
 	r.Rule("C01/PURGE", "uninstall without keep-history passes purgeReleases over the full history on every success return after the history was read", 2)
 
 	for _, op := range mutatingOps {
